@@ -49,382 +49,393 @@ def run(ctx: Context) -> None:
     ctx.rule('R05.2', "extract_points looks every point up once in request order; 'error' raises with exactly the positions whose lookup is None; the selected indexes and their positional labels are the same sequence under the same `is not None` filter", floor=8)
     ctx.rule('R05.3', "missing-point policy tables agree between select_points, extract_points, extract_dataframe and the command line; 'error' is forwarded, the others mean drop; the merge is outer exactly for 'fill'", floor=6)
     ctx.rule('R05.4', "single-index selection uses a fresh dimension name and squeezes exactly that dimension", floor=4)
+    ctx.rule('R05.5', "point selection finds the cell through Convention.get_index_for_point: an 'intersects' query of the point itself, the first (lowest) hit wound to the native index, and no way to answer None other than an empty hit set (facts shared with C04 R04.1-R04.4)", floor=9)
+    from . import c04 as _c04
+    from .common import share_obligations as _share
+    _share(ctx, _c04, {'R04.1', 'R04.2', 'R04.3', 'R04.4'}, 'R05.5')
     ctx.assume("xarray Dataset.isel with a Dataset of integer arrays on a shared new dimension performs pointwise positional selection; pandas/xarray merges align on the point dimension")
 
     # ------------------------------------------------------------------ select_indexes
-    for fi in p.implementations(base, 'select_indexes'):
-        flow = ctx.flow(fi)
-        sel_calls = [c for c in method_calls(fi, 'selector_for_indexes') if flow.canon(c.func.value) == ('param', 'self')]
-        ctx.need('R05.1', len(sel_calls) == 1, f"expected one selector_for_indexes call", fi)
-        sc = sel_calls[0]
-        ctx.check('R05.1', len(sc.args) >= 1 and flow.canon(sc.args[0]) == ('param', fi.params[1]),
-                  "the requested indexes reach the selector unmodified (repeats and order kept)", fi, sc,
-                  construct=f"selector_for_indexes({norm_text(sc.args[0]) if sc.args else ''}, ...)")
-        idk = kwarg(sc, 'index_dimension')
-        ctx.check('R05.1', idk is not None and flow.canon(idk) == ('param', 'index_dimension'),
-                  "the caller's index dimension name is used", fi, sc, construct=f"index_dimension={norm_text(idk) if idk is not None else 'dropped'}")
-        rets = fi.returns()
-        ctx.need('R05.1', len(rets) == 1, f"expected one return", fi)
-        rv = flow.resolve(rets[0].value)
-        ok_isel = (isinstance(rv, ast.Call) and isinstance(rv.func, ast.Attribute) and rv.func.attr == 'isel'
-                   and len(rv.args) == 1 and not rv.keywords and flow.resolve(rv.args[0]) is sc)
-        ctx.check('R05.1', ok_isel, "the result is <dataset>.isel(<that selector>): positional, not label based", fi, rets[0])
-        # the dataset selected from
-        if ok_isel:
-            src = flow.resolve(rv.func.value)
-            ok_src = isinstance(src, ast.Call) and callee(ctx, fi, src) == f"{UTILS}.extract_vars" and len(src.args) >= 2
-            names = flow.resolve(src.args[1]) if ok_src else None
-            ds_c = flow.canon(src.args[0]) if ok_src else None
-            want_a = ('call', ('attr', ('param', 'self'), 'drop_geometry'), (), ())
-            want_b = ('attr', ('param', 'self'), 'dataset')
-            ok_ds = ok_src and set(flow.alternatives(src.args[0])) == {want_a, want_b}
-            ctx.check('R05.1', ok_src and ok_ds, "the source is self.drop_geometry() or self.dataset, reduced by utils.extract_vars", fi, rets[0],
-                      construct=f"source dataset = {norm_text(src)[:110]}")
-            # which branch drops geometry
-            branch_ok = False
-            for n in walk_no_nested(fi.node):
-                if isinstance(n, ast.If) and flow.canon(n.test) == ('param', 'drop_geometry'):
-                    b = [norm_text(s) for s in n.body]
-                    o = [norm_text(s) for s in n.orelse]
-                    branch_ok = any('drop_geometry()' in s for s in b) and any('self.dataset' in s and 'drop_geometry' not in s for s in o)
-            ctx.check('R05.1', branch_ok, "geometry is dropped exactly when drop_geometry is true", fi, fi.node,
-                      construct='if drop_geometry: dataset = self.drop_geometry() else: dataset = self.dataset')
-            ok_names = False
-            if isinstance(names, ast.ListComp) and len(names.generators) == 1:
-                g = names.generators[0]
-                it = flow.resolve(g.iter)
-                ok_it = (isinstance(it, ast.Call) and isinstance(it.func, ast.Attribute) and it.func.attr == 'items'
-                         and flow.canon(it.func.value) == ds_c)
-                ok_elt = (isinstance(g.target, ast.Tuple) and isinstance(names.elt, ast.Name)
-                          and isinstance(g.target.elts[0], ast.Name) and names.elt.id == g.target.elts[0].id)
-                ok_if = False
-                if len(g.ifs) == 1:
-                    t = g.ifs[0]
-                    if isinstance(t, ast.Call) and isinstance(t.func, ast.Attribute) and t.func.attr == 'intersection' and len(t.args) == 1:
-                        recv = flow.resolve(t.func.value)
-                        arg = t.args[0]
-                        ok_arg = (isinstance(arg, ast.Attribute) and arg.attr == 'dims' and isinstance(arg.value, ast.Name)
-                                  and isinstance(g.target.elts[1], ast.Name) and arg.value.id == g.target.elts[1].id)
-                        ok_recv = (isinstance(recv, ast.Call) and dotted(recv.func) == 'set' and recv.args
-                                   and flow.reaches(recv.args[0], lambda n: n is sc))
-                        ok_if = ok_arg and ok_recv
-                ok_names = ok_it and ok_elt and ok_if
-            ctx.check('R05.1', ok_names, "kept variables are those whose dims intersect the selector's dimensions", fi, rets[0],
-                      construct=f"names = {norm_text(names)[:120] if names is not None else '?'}")
+    with ctx.section('select_indexes'):
+        for fi in p.implementations(base, 'select_indexes'):
+            flow = ctx.flow(fi)
+            sel_calls = [c for c in method_calls(fi, 'selector_for_indexes') if flow.canon(c.func.value) == ('param', 'self')]
+            ctx.need('R05.1', len(sel_calls) == 1, f"expected one selector_for_indexes call", fi)
+            sc = sel_calls[0]
+            ctx.check('R05.1', len(sc.args) >= 1 and flow.canon(sc.args[0]) == ('param', fi.params[1]),
+                      "the requested indexes reach the selector unmodified (repeats and order kept)", fi, sc,
+                      construct=f"selector_for_indexes({norm_text(sc.args[0]) if sc.args else ''}, ...)")
+            idk = kwarg(sc, 'index_dimension')
+            ctx.check('R05.1', idk is not None and flow.canon(idk) == ('param', 'index_dimension'),
+                      "the caller's index dimension name is used", fi, sc, construct=f"index_dimension={norm_text(idk) if idk is not None else 'dropped'}")
+            rets = fi.returns()
+            ctx.need('R05.1', len(rets) == 1, f"expected one return", fi)
+            rv = flow.resolve(rets[0].value)
+            ok_isel = (isinstance(rv, ast.Call) and isinstance(rv.func, ast.Attribute) and rv.func.attr == 'isel'
+                       and len(rv.args) == 1 and not rv.keywords and flow.resolve(rv.args[0]) is sc)
+            ctx.check('R05.1', ok_isel, "the result is <dataset>.isel(<that selector>): positional, not label based", fi, rets[0])
+            # the dataset selected from
+            if ok_isel:
+                src = flow.resolve(rv.func.value)
+                ok_src = isinstance(src, ast.Call) and callee(ctx, fi, src) == f"{UTILS}.extract_vars" and len(src.args) >= 2
+                names = flow.resolve(src.args[1]) if ok_src else None
+                ds_c = flow.canon(src.args[0]) if ok_src else None
+                want_a = ('call', ('attr', ('param', 'self'), 'drop_geometry'), (), ())
+                want_b = ('attr', ('param', 'self'), 'dataset')
+                ok_ds = ok_src and set(flow.alternatives(src.args[0])) == {want_a, want_b}
+                ctx.check('R05.1', ok_src and ok_ds, "the source is self.drop_geometry() or self.dataset, reduced by utils.extract_vars", fi, rets[0],
+                          construct=f"source dataset = {norm_text(src)[:110]}")
+                # which branch drops geometry
+                branch_ok = False
+                for n in walk_no_nested(fi.node):
+                    if isinstance(n, ast.If) and flow.canon(n.test) == ('param', 'drop_geometry'):
+                        b = [norm_text(s) for s in n.body]
+                        o = [norm_text(s) for s in n.orelse]
+                        branch_ok = any('drop_geometry()' in s for s in b) and any('self.dataset' in s and 'drop_geometry' not in s for s in o)
+                ctx.check('R05.1', branch_ok, "geometry is dropped exactly when drop_geometry is true", fi, fi.node,
+                          construct='if drop_geometry: dataset = self.drop_geometry() else: dataset = self.dataset')
+                ok_names = False
+                if isinstance(names, ast.ListComp) and len(names.generators) == 1:
+                    g = names.generators[0]
+                    it = flow.resolve(g.iter)
+                    ok_it = (isinstance(it, ast.Call) and isinstance(it.func, ast.Attribute) and it.func.attr == 'items'
+                             and flow.canon(it.func.value) == ds_c)
+                    ok_elt = (isinstance(g.target, ast.Tuple) and isinstance(names.elt, ast.Name)
+                              and isinstance(g.target.elts[0], ast.Name) and names.elt.id == g.target.elts[0].id)
+                    ok_if = False
+                    if len(g.ifs) == 1:
+                        t = g.ifs[0]
+                        if isinstance(t, ast.Call) and isinstance(t.func, ast.Attribute) and t.func.attr == 'intersection' and len(t.args) == 1:
+                            recv = flow.resolve(t.func.value)
+                            arg = t.args[0]
+                            ok_arg = (isinstance(arg, ast.Attribute) and arg.attr == 'dims' and isinstance(arg.value, ast.Name)
+                                      and isinstance(g.target.elts[1], ast.Name) and arg.value.id == g.target.elts[1].id)
+                            ok_recv = (isinstance(recv, ast.Call) and dotted(recv.func) == 'set' and recv.args
+                                       and flow.reaches(recv.args[0], lambda n: n is sc))
+                            ok_if = ok_arg and ok_recv
+                    ok_names = ok_it and ok_elt and ok_if
+                ctx.check('R05.1', ok_names, "kept variables are those whose dims intersect the selector's dimensions", fi, rets[0],
+                          construct=f"names = {norm_text(names)[:120] if names is not None else '?'}")
 
     # ------------------------------------------------------------------ selector_for_indexes
-    for fi in p.implementations(dimconv, 'selector_for_indexes'):
-        flow = ctx.flow(fi)
-        cfg = ctx.cfg(fi)
-        idx_p = fi.params[1]
-        raises = [n for n in walk_no_nested(fi.node) if isinstance(n, ast.Raise)]
-        ok_empty = False
-        ok_mixed = False
-        for rs in raises:
-            for st, inb in enclosing_ifs(fi, rs):
-                t = emptiness_test(flow, st.test)
-                if inb and t is not None and t[0] == 'empty' and flow.canon(t[1]) == ('param', idx_p):
-                    ok_empty = True
-                tt = st.test
-                if inb and isinstance(tt, ast.Compare) and len(tt.ops) == 1 and isinstance(tt.ops[0], ast.Gt) \
-                        and const_value(tt.comparators[0], None) == 1:
-                    ll = flow.resolve(tt.left)
-                    if isinstance(ll, ast.Call) and dotted(ll.func) == 'len' and ll.args:
-                        s = flow.resolve(ll.args[0])
-                        if isinstance(s, ast.Call) and dotted(s.func) == 'set':
-                            ok_mixed = True
-        ctx.check('R05.1', ok_empty, "an empty request is refused", fi, fi.node, construct='raise when len(indexes) == 0')
-        ctx.check('R05.1', ok_mixed, "indexes of more than one grid kind are refused", fi, fi.node, construct='raise when len(set(grid_kinds)) > 1')
-        dsets = [c for c in calls_in(fi) if (dotted(c.func) or '').endswith('Dataset')]
-        ctx.need('R05.1', len(dsets) == 1 and dsets[0].args, f"expected one xarray.Dataset(...) construction", fi)
-        dc = flow.resolve(dsets[0].args[0])
-        ok_pair = False
-        ok_dims = False
-        ok_arr = False
-        detail = norm_text(dc)
-        if isinstance(dc, ast.DictComp) and len(dc.generators) == 1 and not dc.generators[0].ifs:
-            g = dc.generators[0]
-            it = flow.resolve(g.iter)
-            if isinstance(it, ast.Call) and dotted(it.func) == 'enumerate' and len(it.args) == 1 and not it.keywords \
-                    and isinstance(g.target, ast.Tuple) and len(g.target.elts) == 2 \
-                    and all(isinstance(e, ast.Name) for e in g.target.elts):
-                ivar, dvar = g.target.elts[0].id, g.target.elts[1].id
-                seq = flow.resolve(it.args[0])
-                ok_key = isinstance(dc.key, ast.Name) and dc.key.id == dvar
-                val = dc.value
-                col = None
-                if isinstance(val, ast.Tuple) and len(val.elts) == 2:
-                    col = val.elts[1]
-                    ok_dimname = flow.canon(val.elts[0]) in (('param', 'index_dimension'),) or \
-                        (flow.canon(val.elts[0])[0] == 'phi' and ('param', 'index_dimension') in flow.canon(val.elts[0]))
-                else:
-                    ok_dimname = False
-                ok_col = (isinstance(col, ast.Subscript) and isinstance(col.slice, ast.Tuple) and len(col.slice.elts) == 2
-                          and isinstance(col.slice.elts[0], ast.Slice) and col.slice.elts[0].lower is None
-                          and col.slice.elts[0].upper is None and col.slice.elts[0].step is None
-                          and isinstance(col.slice.elts[1], ast.Name) and col.slice.elts[1].id == ivar)
-                ok_pair = ok_key and ok_col and ok_dimname
-                # the sequence is grid_dimensions[kind of the first index]
-                if isinstance(seq, ast.Subscript) and flow.canon(seq.value) == ('attr', ('param', 'self'), 'grid_dimensions'):
-                    ok_dims = True
-                # the index array: numpy.array(<tuples from unpack_index in request order>)
-                if ok_col:
-                    arr = flow.resolve(col.value)
-                    if isinstance(arr, ast.Call) and callee(ctx, fi, arr) in ('numpy.array', 'numpy.asarray') and arr.args:
-                        src = arr.args[0]
-                        ok_arr = flow.reaches(src, lambda n: isinstance(n, ast.Call) and isinstance(n.func, ast.Attribute)
-                                              and n.func.attr == 'unpack_index')
-        ctx.check('R05.1', ok_pair, "selector[dimension i] = (index dimension, index_array[:, i]) from one enumerate", fi, dsets[0],
-                  construct=f"selector = {detail[:130]}")
-        ctx.check('R05.1', ok_dims, "the enumerated sequence is self.grid_dimensions[kind]", fi, dsets[0], construct='enumerate(self.grid_dimensions[kind])')
-        ctx.check('R05.1', ok_arr, "the index array holds the unpacked index tuples", fi, dsets[0], construct='index_array = numpy.array(index tuples)')
-        # request order: the unpack comprehension iterates `indexes` in order
-        unpack_comp = [n for n in ast.walk(fi.node) if isinstance(n, (ast.ListComp, ast.GeneratorExp))
-                       and isinstance(n.elt, ast.Call) and isinstance(n.elt.func, ast.Attribute) and n.elt.func.attr == 'unpack_index']
-        ok_order = (len(unpack_comp) == 1 and len(unpack_comp[0].generators) == 1 and not unpack_comp[0].generators[0].ifs
-                    and flow.canon(unpack_comp[0].generators[0].iter) == ('param', idx_p)
-                    and isinstance(unpack_comp[0].generators[0].target, ast.Name)
-                    and len(unpack_comp[0].elt.args) == 1 and isinstance(unpack_comp[0].elt.args[0], ast.Name)
-                    and unpack_comp[0].elt.args[0].id == unpack_comp[0].generators[0].target.id)
-        ctx.check('R05.1', ok_order, "every requested index is unpacked once, in request order", fi,
-                  unpack_comp[0] if unpack_comp else fi.node)
-        # kind used for the dimensions is the kind of the request
-        kinds_ok = False
-        for n in walk_no_nested(fi.node):
-            if isinstance(n, ast.Assign) and isinstance(n.value, ast.Subscript) \
-                    and flow.canon(n.value.value) == ('attr', ('param', 'self'), 'grid_dimensions'):
-                k = flow.resolve(n.value.slice)
-                if isinstance(k, ast.Subscript) and const_value(k.slice, None) == 0:
-                    kinds_ok = True
-        ctx.check('R05.1', kinds_ok, "dimensions come from the grid kind of the requested indexes", fi, fi.node,
-                  construct='dimensions = self.grid_dimensions[grid_kinds[0]]')
+    with ctx.section('selector_for_indexes'):
+        for fi in p.implementations(dimconv, 'selector_for_indexes'):
+            flow = ctx.flow(fi)
+            cfg = ctx.cfg(fi)
+            idx_p = fi.params[1]
+            raises = [n for n in walk_no_nested(fi.node) if isinstance(n, ast.Raise)]
+            ok_empty = False
+            ok_mixed = False
+            for rs in raises:
+                for st, inb in enclosing_ifs(fi, rs):
+                    t = emptiness_test(flow, st.test)
+                    if inb and t is not None and t[0] == 'empty' and flow.canon(t[1]) == ('param', idx_p):
+                        ok_empty = True
+                    tt = st.test
+                    if inb and isinstance(tt, ast.Compare) and len(tt.ops) == 1 and isinstance(tt.ops[0], ast.Gt) \
+                            and const_value(tt.comparators[0], None) == 1:
+                        ll = flow.resolve(tt.left)
+                        if isinstance(ll, ast.Call) and dotted(ll.func) == 'len' and ll.args:
+                            s = flow.resolve(ll.args[0])
+                            if isinstance(s, ast.Call) and dotted(s.func) == 'set':
+                                ok_mixed = True
+            ctx.check('R05.1', ok_empty, "an empty request is refused", fi, fi.node, construct='raise when len(indexes) == 0')
+            ctx.check('R05.1', ok_mixed, "indexes of more than one grid kind are refused", fi, fi.node, construct='raise when len(set(grid_kinds)) > 1')
+            dsets = [c for c in calls_in(fi) if (dotted(c.func) or '').endswith('Dataset')]
+            ctx.need('R05.1', len(dsets) == 1 and dsets[0].args, f"expected one xarray.Dataset(...) construction", fi)
+            dc = flow.resolve(dsets[0].args[0])
+            ok_pair = False
+            ok_dims = False
+            ok_arr = False
+            detail = norm_text(dc)
+            if isinstance(dc, ast.DictComp) and len(dc.generators) == 1 and not dc.generators[0].ifs:
+                g = dc.generators[0]
+                it = flow.resolve(g.iter)
+                if isinstance(it, ast.Call) and dotted(it.func) == 'enumerate' and len(it.args) == 1 and not it.keywords \
+                        and isinstance(g.target, ast.Tuple) and len(g.target.elts) == 2 \
+                        and all(isinstance(e, ast.Name) for e in g.target.elts):
+                    ivar, dvar = g.target.elts[0].id, g.target.elts[1].id
+                    seq = flow.resolve(it.args[0])
+                    ok_key = isinstance(dc.key, ast.Name) and dc.key.id == dvar
+                    val = dc.value
+                    col = None
+                    if isinstance(val, ast.Tuple) and len(val.elts) == 2:
+                        col = val.elts[1]
+                        ok_dimname = flow.canon(val.elts[0]) in (('param', 'index_dimension'),) or \
+                            (flow.canon(val.elts[0])[0] == 'phi' and ('param', 'index_dimension') in flow.canon(val.elts[0]))
+                    else:
+                        ok_dimname = False
+                    ok_col = (isinstance(col, ast.Subscript) and isinstance(col.slice, ast.Tuple) and len(col.slice.elts) == 2
+                              and isinstance(col.slice.elts[0], ast.Slice) and col.slice.elts[0].lower is None
+                              and col.slice.elts[0].upper is None and col.slice.elts[0].step is None
+                              and isinstance(col.slice.elts[1], ast.Name) and col.slice.elts[1].id == ivar)
+                    ok_pair = ok_key and ok_col and ok_dimname
+                    # the sequence is grid_dimensions[kind of the first index]
+                    if isinstance(seq, ast.Subscript) and flow.canon(seq.value) == ('attr', ('param', 'self'), 'grid_dimensions'):
+                        ok_dims = True
+                    # the index array: numpy.array(<tuples from unpack_index in request order>)
+                    if ok_col:
+                        arr = flow.resolve(col.value)
+                        if isinstance(arr, ast.Call) and callee(ctx, fi, arr) in ('numpy.array', 'numpy.asarray') and arr.args:
+                            src = arr.args[0]
+                            ok_arr = flow.reaches(src, lambda n: isinstance(n, ast.Call) and isinstance(n.func, ast.Attribute)
+                                                  and n.func.attr == 'unpack_index')
+            ctx.check('R05.1', ok_pair, "selector[dimension i] = (index dimension, index_array[:, i]) from one enumerate", fi, dsets[0],
+                      construct=f"selector = {detail[:130]}")
+            ctx.check('R05.1', ok_dims, "the enumerated sequence is self.grid_dimensions[kind]", fi, dsets[0], construct='enumerate(self.grid_dimensions[kind])')
+            ctx.check('R05.1', ok_arr, "the index array holds the unpacked index tuples", fi, dsets[0], construct='index_array = numpy.array(index tuples)')
+            # request order: the unpack comprehension iterates `indexes` in order
+            unpack_comp = [n for n in ast.walk(fi.node) if isinstance(n, (ast.ListComp, ast.GeneratorExp))
+                           and isinstance(n.elt, ast.Call) and isinstance(n.elt.func, ast.Attribute) and n.elt.func.attr == 'unpack_index']
+            ok_order = (len(unpack_comp) == 1 and len(unpack_comp[0].generators) == 1 and not unpack_comp[0].generators[0].ifs
+                        and flow.canon(unpack_comp[0].generators[0].iter) == ('param', idx_p)
+                        and isinstance(unpack_comp[0].generators[0].target, ast.Name)
+                        and len(unpack_comp[0].elt.args) == 1 and isinstance(unpack_comp[0].elt.args[0], ast.Name)
+                        and unpack_comp[0].elt.args[0].id == unpack_comp[0].generators[0].target.id)
+            ctx.check('R05.1', ok_order, "every requested index is unpacked once, in request order", fi,
+                      unpack_comp[0] if unpack_comp else fi.node)
+            # kind used for the dimensions is the kind of the request
+            kinds_ok = False
+            for n in walk_no_nested(fi.node):
+                if isinstance(n, ast.Assign) and isinstance(n.value, ast.Subscript) \
+                        and flow.canon(n.value.value) == ('attr', ('param', 'self'), 'grid_dimensions'):
+                    k = flow.resolve(n.value.slice)
+                    if isinstance(k, ast.Subscript) and const_value(k.slice, None) == 0:
+                        kinds_ok = True
+            ctx.check('R05.1', kinds_ok, "dimensions come from the grid kind of the requested indexes", fi, fi.node,
+                      construct='dimensions = self.grid_dimensions[grid_kinds[0]]')
 
     # ------------------------------------------------------------------ select_index / selector_for_index (R05.4)
-    for name, inner in (('select_index', 'select_indexes'), ('selector_for_index', 'selector_for_indexes')):
-        for fi in p.implementations(base, name):
-            flow = ctx.flow(fi)
-            fresh = [c for c in calls_in(fi) if callee(ctx, fi, c) == f"{UTILS}.find_unused_dimension"]
-            inner_calls = [c for c in method_calls(fi, inner) if flow.canon(c.func.value) == ('param', 'self')]
-            ctx.need('R05.4', len(fresh) == 1 and len(inner_calls) == 1, f"expected find_unused_dimension and {inner} calls", fi)
-            ic = inner_calls[0]
-            lst = flow.resolve(ic.args[0]) if ic.args else None
-            ok_one = isinstance(lst, ast.List) and len(lst.elts) == 1 and flow.canon(lst.elts[0]) == ('param', fi.params[1])
-            idk = kwarg(ic, 'index_dimension')
-            ok_dim = idk is not None and flow.resolve(idk) is fresh[0] and flow.canon(fresh[0].args[0]) == ('attr', ('param', 'self'), 'dataset')
-            ctx.check('R05.4', ok_one and ok_dim, f"{inner}([index], index_dimension=<fresh name for this dataset>)", fi, ic)
-            if name == 'select_index':
-                dg = kwarg(ic, 'drop_geometry')
-                ctx.check('R05.4', dg is not None and flow.canon(dg) == ('param', 'drop_geometry'), "drop_geometry is passed on", fi, ic,
-                          construct=f"drop_geometry={norm_text(dg) if dg is not None else 'dropped'}")
-            sq = [c for c in method_calls(fi, 'squeeze')]
-            ok_sq = (len(sq) == 1 and flow.resolve(sq[0].func.value) is ic and kwarg(sq[0], 'dim') is not None
-                     and flow.resolve(kwarg(sq[0], 'dim')) is fresh[0])
-            ctx.check('R05.4', ok_sq, "exactly the fresh index dimension is squeezed out of the result", fi, sq[0] if sq else fi.node)
-            for r in fi.returns():
-                ctx.check('R05.4', sq and flow.resolve(r.value) is sq[0], "the squeezed selection is returned", fi, r)
+    with ctx.section('select_index / selector_for_index (R05.4)'):
+        for name, inner in (('select_index', 'select_indexes'), ('selector_for_index', 'selector_for_indexes')):
+            for fi in p.implementations(base, name):
+                flow = ctx.flow(fi)
+                fresh = [c for c in calls_in(fi) if callee(ctx, fi, c) == f"{UTILS}.find_unused_dimension"]
+                inner_calls = [c for c in method_calls(fi, inner) if flow.canon(c.func.value) == ('param', 'self')]
+                ctx.need('R05.4', len(fresh) == 1 and len(inner_calls) == 1, f"expected find_unused_dimension and {inner} calls", fi)
+                ic = inner_calls[0]
+                lst = flow.resolve(ic.args[0]) if ic.args else None
+                ok_one = isinstance(lst, ast.List) and len(lst.elts) == 1 and flow.canon(lst.elts[0]) == ('param', fi.params[1])
+                idk = kwarg(ic, 'index_dimension')
+                ok_dim = idk is not None and flow.resolve(idk) is fresh[0] and flow.canon(fresh[0].args[0]) == ('attr', ('param', 'self'), 'dataset')
+                ctx.check('R05.4', ok_one and ok_dim, f"{inner}([index], index_dimension=<fresh name for this dataset>)", fi, ic)
+                if name == 'select_index':
+                    dg = kwarg(ic, 'drop_geometry')
+                    ctx.check('R05.4', dg is not None and flow.canon(dg) == ('param', 'drop_geometry'), "drop_geometry is passed on", fi, ic,
+                              construct=f"drop_geometry={norm_text(dg) if dg is not None else 'dropped'}")
+                sq = [c for c in method_calls(fi, 'squeeze')]
+                ok_sq = (len(sq) == 1 and flow.resolve(sq[0].func.value) is ic and kwarg(sq[0], 'dim') is not None
+                         and flow.resolve(kwarg(sq[0], 'dim')) is fresh[0])
+                ctx.check('R05.4', ok_sq, "exactly the fresh index dimension is squeezed out of the result", fi, sq[0] if sq else fi.node)
+                for r in fi.returns():
+                    ctx.check('R05.4', sq and flow.resolve(r.value) is sq[0], "the squeezed selection is returned", fi, r)
 
     # ------------------------------------------------------------------ drop_geometry / extract_vars
-    for fi in p.implementations(base, 'drop_geometry'):
-        flow = ctx.flow(fi)
-        drops = [c for c in method_calls(fi, 'drop_vars')]
-        if fi.cls.qualname != base.qualname:
-            # overrides must start from super().drop_geometry()
-            sup = [c for c in method_calls(fi, 'drop_geometry') if isinstance(c.func.value, ast.Call) and dotted(c.func.value.func) == 'super']
-            ctx.check('R05.1', len(sup) == 1, "override builds on super().drop_geometry()", fi, fi.node, construct='super().drop_geometry()')
-            continue
-        ok = (len(drops) == 1 and flow.canon(drops[0].func.value) == ('attr', ('param', 'self'), 'dataset') and drops[0].args
-              and flow.canon(drops[0].args[0]) == ('call', ('attr', ('param', 'self'), 'get_all_geometry_names'), (), ()))
-        ctx.check('R05.1', ok, "drop_geometry drops exactly get_all_geometry_names() from the dataset", fi, drops[0] if drops else fi.node)
-    ev = ctx.func(f"{UTILS}.extract_vars")
-    flow = ctx.flow(ev)
-    drops = [c for c in method_calls(ev, 'drop_vars')]
-    ctx.need('R05.1', len(drops) == 1, f"expected one drop_vars call", ev)
-    dl = flow.resolve(drops[0].args[0]) if drops[0].args else None
-    ok = False
-    if isinstance(dl, ast.ListComp) and len(dl.generators) == 1 and len(dl.generators[0].ifs) == 1:
-        g = dl.generators[0]
-        t = g.ifs[0]
-        it = flow.resolve(g.iter)
-        ok = (isinstance(t, ast.Compare) and isinstance(t.ops[0], ast.NotIn)
-              and isinstance(it, ast.Call) and isinstance(it.func, ast.Attribute) and it.func.attr == 'keys'
-              and norm_text(it.func.value) == f"{ev.params[0]}.data_vars"
-              and flow.reaches(t.comparators[0], lambda n: isinstance(n, ast.Name) and n.id == ev.params[1]
-                               and any(d.kind == 'param' for d in flow.defs_of(n))))
-    ctx.check('R05.1', ok and flow.canon(drops[0].func.value) == ('param', ev.params[0]),
-              "extract_vars drops exactly the data variables not requested (coordinates are kept)", ev, drops[0])
+    with ctx.section('drop_geometry / extract_vars'):
+        for fi in p.implementations(base, 'drop_geometry'):
+            flow = ctx.flow(fi)
+            drops = [c for c in method_calls(fi, 'drop_vars')]
+            if fi.cls.qualname != base.qualname:
+                # overrides must start from super().drop_geometry()
+                sup = [c for c in method_calls(fi, 'drop_geometry') if isinstance(c.func.value, ast.Call) and dotted(c.func.value.func) == 'super']
+                ctx.check('R05.1', len(sup) == 1, "override builds on super().drop_geometry()", fi, fi.node, construct='super().drop_geometry()')
+                continue
+            ok = (len(drops) == 1 and flow.canon(drops[0].func.value) == ('attr', ('param', 'self'), 'dataset') and drops[0].args
+                  and flow.canon(drops[0].args[0]) == ('call', ('attr', ('param', 'self'), 'get_all_geometry_names'), (), ()))
+            ctx.check('R05.1', ok, "drop_geometry drops exactly get_all_geometry_names() from the dataset", fi, drops[0] if drops else fi.node)
+        ev = ctx.func(f"{UTILS}.extract_vars")
+        flow = ctx.flow(ev)
+        drops = [c for c in method_calls(ev, 'drop_vars')]
+        ctx.need('R05.1', len(drops) == 1, f"expected one drop_vars call", ev)
+        dl = flow.resolve(drops[0].args[0]) if drops[0].args else None
+        ok = False
+        if isinstance(dl, ast.ListComp) and len(dl.generators) == 1 and len(dl.generators[0].ifs) == 1:
+            g = dl.generators[0]
+            t = g.ifs[0]
+            it = flow.resolve(g.iter)
+            ok = (isinstance(t, ast.Compare) and isinstance(t.ops[0], ast.NotIn)
+                  and isinstance(it, ast.Call) and isinstance(it.func, ast.Attribute) and it.func.attr == 'keys'
+                  and norm_text(it.func.value) == f"{ev.params[0]}.data_vars"
+                  and flow.reaches(t.comparators[0], lambda n: isinstance(n, ast.Name) and n.id == ev.params[1]
+                                   and any(d.kind == 'param' for d in flow.defs_of(n))))
+        ctx.check('R05.1', ok and flow.canon(drops[0].func.value) == ('param', ev.params[0]),
+                  "extract_vars drops exactly the data variables not requested (coordinates are kept)", ev, drops[0])
 
     # ------------------------------------------------------------------ extract_points (R05.2)
-    ep = ctx.func(f"{PX}.extract_points")
-    flow = ctx.flow(ep)
-    pts = ep.params[1]
-    lookups = [c for c in method_calls(ep, 'get_index_for_point')]
-    ctx.need('R05.2', len(lookups) == 1, f"expected one get_index_for_point call", ep)
-    lk = lookups[0]
-    comp = None
-    for n in ast.walk(ep.node):
-        if isinstance(n, (ast.ListComp, ast.GeneratorExp)) and n.elt is lk:
-            comp = n
-    ok_lookup = (comp is not None and len(comp.generators) == 1 and not comp.generators[0].ifs
-                 and flow.canon(comp.generators[0].iter) == ('param', pts)
-                 and isinstance(comp.generators[0].target, ast.Name) and len(lk.args) == 1
-                 and isinstance(lk.args[0], ast.Name) and lk.args[0].id == comp.generators[0].target.id)
-    ctx.check('R05.2', ok_lookup, "one lookup per requested point, in request order", ep, comp or lk)
-    recv_t = ctx.types(ep).type_of(lk.func.value)
-    ctx.check('R05.2', recv_t == p.canonical(BASE) or (recv_t in p.classes and p.is_subclass(p.classes[recv_t], BASE)),
-              "the lookup is the dataset's own convention (dataset.ems)", ep, lk, construct=f"receiver type {recv_t}")
-    # the name bound to the lookups
-    idx_name = None
-    for n in walk_no_nested(ep.node):
-        if isinstance(n, ast.Assign) and comp is not None and any(x is comp for x in ast.walk(n.value)) and isinstance(n.targets[0], ast.Name):
-            idx_name = n.targets[0]
-            idx_assign = n
-    ctx.need('R05.2', idx_name is not None, f"lookups are not bound to a name", ep)
-    # find a Name load of that variable to take its canon
-    loads = [n for n in ast.walk(ep.node) if isinstance(n, ast.Name) and n.id == idx_name.id and isinstance(n.ctx, ast.Load)]
-    ctx.need('R05.2', loads, f"lookups never used", ep)
-    idx_c = flow.canon(loads[0])
-    # error branch
-    raises = [n for n in walk_no_nested(ep.node) if isinstance(n, ast.Raise)]
-    ok_err = False
-    ok_err_guard = False
-    for rs in raises:
-        exc = rs.exc
-        if isinstance(exc, ast.Call) and (dotted(exc.func) or '').endswith('NonIntersectingPoints'):
-            iarg = kwarg(exc, 'indexes') or (exc.args[0] if exc.args else None)
-            parg = kwarg(exc, 'points') or (exc.args[1] if len(exc.args) > 1 else None)
-            if iarg is None or parg is None:
-                continue
-            src = flow.resolve(iarg)
-            # numpy.flatnonzero(numpy.equal(indexes, None))
-            ok_i = False
-            if isinstance(src, ast.Call) and callee(ctx, ep, src) == 'numpy.flatnonzero' and src.args:
-                inner = flow.resolve(src.args[0])
-                if isinstance(inner, ast.Call) and callee(ctx, ep, inner) == 'numpy.equal' and len(inner.args) == 2 \
-                        and flow.canon(inner.args[0]) == idx_c and is_none(inner.args[1]):
-                    ok_i = True
-                if isinstance(inner, ast.Compare) and len(inner.ops) == 1 and isinstance(inner.ops[0], ast.Eq) \
-                        and flow.canon(inner.left) == idx_c and is_none(inner.comparators[0]):
-                    ok_i = True
-            pl = flow.resolve(parg)
-            ok_p = (isinstance(pl, ast.ListComp) and len(pl.generators) == 1 and not pl.generators[0].ifs
-                    and flow.canon(pl.generators[0].iter) == flow.canon(iarg)
-                    and isinstance(pl.elt, ast.Subscript) and flow.canon(pl.elt.value) == ('param', pts)
-                    and isinstance(pl.elt.slice, ast.Name) and isinstance(pl.generators[0].target, ast.Name)
-                    and pl.elt.slice.id == pl.generators[0].target.id)
-            ok_err = ok_i and ok_p
-            tests = [(flow, st, inb) for st, inb in enclosing_ifs(ep, rs)]
-            has_policy = any(inb and isinstance(st.test, ast.Compare) and isinstance(st.test.ops[0], ast.Eq)
-                             and flow.canon(st.test.left) == ('param', 'missing_points')
-                             and const_value(st.test.comparators[0], None) == 'error' for _, st, inb in tests)
-            has_nonempty = any(inb and (emptiness_test(flow, st.test) or ('', None))[0] == 'nonempty'
-                               and flow.canon((emptiness_test(flow, st.test))[1]) == flow.canon(iarg) for _, st, inb in tests)
-            ok_err_guard = has_policy and has_nonempty
-    ctx.check('R05.2', ok_err, "'error' reports exactly the positions whose lookup is None, and those points", ep,
-              raises[0] if raises else ep.node, construct='NonIntersectingPoints(indexes=flatnonzero(lookups == None), points=[points[i] for i in indexes])')
-    ctx.check('R05.2', ok_err_guard, "the error is raised iff the policy is 'error' and at least one lookup missed", ep,
-              raises[0] if raises else ep.node, construct="raise guarded by missing_points == 'error' and len(out_of_bounds)")
-    # selection and labels
-    sel = [c for c in method_calls(ep, 'select_indexes')]
-    ctx.need('R05.2', len(sel) == 1 and sel[0].args, f"expected one select_indexes call", ep)
-    sl = flow.resolve(sel[0].args[0])
-    ok_f, tgt = _none_filter(flow, sl, idx_c)
-    ok_elt = ok_f and isinstance(sl.elt, ast.Attribute) and sl.elt.attr == 'index' and isinstance(sl.elt.value, ast.Name) \
-        and sl.elt.value.id == tgt[1].id
-    ctx.check('R05.2', bool(ok_elt), "select_indexes receives <item>.index for every lookup that is not None, in order", ep, sel[0],
-              construct=f"selected = {norm_text(sl)[:110]}")
-    dg = kwarg(sel[0], 'drop_geometry')
-    ctx.check('R05.2', dg is not None and const_value(dg, None) is True, "geometry variables are dropped from the point dataset", ep, sel[0],
-              construct=f"drop_geometry={norm_text(dg) if dg is not None else 'default'}")
-    idk = kwarg(sel[0], 'index_dimension')
-    pdc = flow.canon(idk) if idk is not None else None
-    ctx.check('R05.2', pdc is not None and (pdc == ('param', 'point_dimension') or (pdc[0] == 'phi' and ('param', 'point_dimension') in pdc)),
-              "the point dimension is the caller's name (or a fresh one when none was given)", ep, sel[0],
-              construct=f"index_dimension={norm_text(idk) if idk is not None else 'dropped'}")
-    assigns = [c for c in method_calls(ep, 'assign_coords')]
-    ctx.need('R05.2', len(assigns) == 1 and assigns[0].args, f"expected one assign_coords call", ep)
-    ac = flow.resolve(assigns[0].args[0])
-    ok_lab = False
-    detail = norm_text(ac)
-    if isinstance(ac, ast.Dict) and len(ac.keys) == 1 and isinstance(ac.values[0], ast.Tuple) and len(ac.values[0].elts) == 2:
-        labels = flow.resolve(ac.values[0].elts[1])
-        ok_f2, tgt2 = _none_filter(flow, labels, idx_c)
-        if ok_f2 and isinstance(tgt2[0], ast.Tuple) and isinstance(labels.elt, ast.Name) \
-                and isinstance(tgt2[0].elts[0], ast.Name) and labels.elt.id == tgt2[0].elts[0].id:
-            ok_lab = flow.canon(ac.keys[0]) == pdc
-    ctx.check('R05.2', ok_lab, "the positional labels are the enumerate positions of the lookups that are not None (original positions)", ep, assigns[0],
-              construct=f"labels = {detail[:120]}")
-    ctx.check('R05.2', flow.resolve(assigns[0].func.value) is sel[0], "labels are attached to that same selection", ep, assigns[0],
-              construct='point_ds.assign_coords on the select_indexes result')
+    with ctx.section('extract_points (R05.2)'):
+        ep = ctx.func(f"{PX}.extract_points")
+        flow = ctx.flow(ep)
+        pts = ep.params[1]
+        lookups = [c for c in method_calls(ep, 'get_index_for_point')]
+        ctx.need('R05.2', len(lookups) == 1, f"expected one get_index_for_point call", ep)
+        lk = lookups[0]
+        comp = None
+        for n in ast.walk(ep.node):
+            if isinstance(n, (ast.ListComp, ast.GeneratorExp)) and n.elt is lk:
+                comp = n
+        ok_lookup = (comp is not None and len(comp.generators) == 1 and not comp.generators[0].ifs
+                     and flow.canon(comp.generators[0].iter) == ('param', pts)
+                     and isinstance(comp.generators[0].target, ast.Name) and len(lk.args) == 1
+                     and isinstance(lk.args[0], ast.Name) and lk.args[0].id == comp.generators[0].target.id)
+        ctx.check('R05.2', ok_lookup, "one lookup per requested point, in request order", ep, comp or lk)
+        recv_t = ctx.types(ep).type_of(lk.func.value)
+        ctx.check('R05.2', recv_t == p.canonical(BASE) or (recv_t in p.classes and p.is_subclass(p.classes[recv_t], BASE)),
+                  "the lookup is the dataset's own convention (dataset.ems)", ep, lk, construct=f"receiver type {recv_t}")
+        # the name bound to the lookups
+        idx_name = None
+        for n in walk_no_nested(ep.node):
+            if isinstance(n, ast.Assign) and comp is not None and any(x is comp for x in ast.walk(n.value)) and isinstance(n.targets[0], ast.Name):
+                idx_name = n.targets[0]
+                idx_assign = n
+        ctx.need('R05.2', idx_name is not None, f"lookups are not bound to a name", ep)
+        # find a Name load of that variable to take its canon
+        loads = [n for n in ast.walk(ep.node) if isinstance(n, ast.Name) and n.id == idx_name.id and isinstance(n.ctx, ast.Load)]
+        ctx.need('R05.2', loads, f"lookups never used", ep)
+        idx_c = flow.canon(loads[0])
+        # error branch
+        raises = [n for n in walk_no_nested(ep.node) if isinstance(n, ast.Raise)]
+        ok_err = False
+        ok_err_guard = False
+        for rs in raises:
+            exc = rs.exc
+            if isinstance(exc, ast.Call) and (dotted(exc.func) or '').endswith('NonIntersectingPoints'):
+                iarg = kwarg(exc, 'indexes') or (exc.args[0] if exc.args else None)
+                parg = kwarg(exc, 'points') or (exc.args[1] if len(exc.args) > 1 else None)
+                if iarg is None or parg is None:
+                    continue
+                src = flow.resolve(iarg)
+                # numpy.flatnonzero(numpy.equal(indexes, None))
+                ok_i = False
+                if isinstance(src, ast.Call) and callee(ctx, ep, src) == 'numpy.flatnonzero' and src.args:
+                    inner = flow.resolve(src.args[0])
+                    if isinstance(inner, ast.Call) and callee(ctx, ep, inner) == 'numpy.equal' and len(inner.args) == 2 \
+                            and flow.canon(inner.args[0]) == idx_c and is_none(inner.args[1]):
+                        ok_i = True
+                    if isinstance(inner, ast.Compare) and len(inner.ops) == 1 and isinstance(inner.ops[0], ast.Eq) \
+                            and flow.canon(inner.left) == idx_c and is_none(inner.comparators[0]):
+                        ok_i = True
+                pl = flow.resolve(parg)
+                ok_p = (isinstance(pl, ast.ListComp) and len(pl.generators) == 1 and not pl.generators[0].ifs
+                        and flow.canon(pl.generators[0].iter) == flow.canon(iarg)
+                        and isinstance(pl.elt, ast.Subscript) and flow.canon(pl.elt.value) == ('param', pts)
+                        and isinstance(pl.elt.slice, ast.Name) and isinstance(pl.generators[0].target, ast.Name)
+                        and pl.elt.slice.id == pl.generators[0].target.id)
+                ok_err = ok_i and ok_p
+                tests = [(flow, st, inb) for st, inb in enclosing_ifs(ep, rs)]
+                has_policy = any(inb and isinstance(st.test, ast.Compare) and isinstance(st.test.ops[0], ast.Eq)
+                                 and flow.canon(st.test.left) == ('param', 'missing_points')
+                                 and const_value(st.test.comparators[0], None) == 'error' for _, st, inb in tests)
+                has_nonempty = any(inb and (emptiness_test(flow, st.test) or ('', None))[0] == 'nonempty'
+                                   and flow.canon((emptiness_test(flow, st.test))[1]) == flow.canon(iarg) for _, st, inb in tests)
+                ok_err_guard = has_policy and has_nonempty
+        ctx.check('R05.2', ok_err, "'error' reports exactly the positions whose lookup is None, and those points", ep,
+                  raises[0] if raises else ep.node, construct='NonIntersectingPoints(indexes=flatnonzero(lookups == None), points=[points[i] for i in indexes])')
+        ctx.check('R05.2', ok_err_guard, "the error is raised iff the policy is 'error' and at least one lookup missed", ep,
+                  raises[0] if raises else ep.node, construct="raise guarded by missing_points == 'error' and len(out_of_bounds)")
+        # selection and labels
+        sel = [c for c in method_calls(ep, 'select_indexes')]
+        ctx.need('R05.2', len(sel) == 1 and sel[0].args, f"expected one select_indexes call", ep)
+        sl = flow.resolve(sel[0].args[0])
+        ok_f, tgt = _none_filter(flow, sl, idx_c)
+        ok_elt = ok_f and isinstance(sl.elt, ast.Attribute) and sl.elt.attr == 'index' and isinstance(sl.elt.value, ast.Name) \
+            and sl.elt.value.id == tgt[1].id
+        ctx.check('R05.2', bool(ok_elt), "select_indexes receives <item>.index for every lookup that is not None, in order", ep, sel[0],
+                  construct=f"selected = {norm_text(sl)[:110]}")
+        dg = kwarg(sel[0], 'drop_geometry')
+        ctx.check('R05.2', dg is not None and const_value(dg, None) is True, "geometry variables are dropped from the point dataset", ep, sel[0],
+                  construct=f"drop_geometry={norm_text(dg) if dg is not None else 'default'}")
+        idk = kwarg(sel[0], 'index_dimension')
+        pdc = flow.canon(idk) if idk is not None else None
+        ctx.check('R05.2', pdc is not None and (pdc == ('param', 'point_dimension') or (pdc[0] == 'phi' and ('param', 'point_dimension') in pdc)),
+                  "the point dimension is the caller's name (or a fresh one when none was given)", ep, sel[0],
+                  construct=f"index_dimension={norm_text(idk) if idk is not None else 'dropped'}")
+        assigns = [c for c in method_calls(ep, 'assign_coords')]
+        ctx.need('R05.2', len(assigns) == 1 and assigns[0].args, f"expected one assign_coords call", ep)
+        ac = flow.resolve(assigns[0].args[0])
+        ok_lab = False
+        detail = norm_text(ac)
+        if isinstance(ac, ast.Dict) and len(ac.keys) == 1 and isinstance(ac.values[0], ast.Tuple) and len(ac.values[0].elts) == 2:
+            labels = flow.resolve(ac.values[0].elts[1])
+            ok_f2, tgt2 = _none_filter(flow, labels, idx_c)
+            if ok_f2 and isinstance(tgt2[0], ast.Tuple) and isinstance(labels.elt, ast.Name) \
+                    and isinstance(tgt2[0].elts[0], ast.Name) and labels.elt.id == tgt2[0].elts[0].id:
+                ok_lab = flow.canon(ac.keys[0]) == pdc
+        ctx.check('R05.2', ok_lab, "the positional labels are the enumerate positions of the lookups that are not None (original positions)", ep, assigns[0],
+                  construct=f"labels = {detail[:120]}")
+        ctx.check('R05.2', flow.resolve(assigns[0].func.value) is sel[0], "labels are attached to that same selection", ep, assigns[0],
+                  construct='point_ds.assign_coords on the select_indexes result')
 
     # ------------------------------------------------------------------ policy tables (R05.3)
-    sp = ctx.func(f"{BASE}.select_points")
-    ed = ctx.func(f"{PX}.extract_dataframe")
-    lit_sp = literal_annotation_values(param_annotation(sp, 'missing_points'))
-    lit_ep = literal_annotation_values(param_annotation(ep, 'missing_points'))
-    lit_ed = literal_annotation_values(param_annotation(ed, 'missing_points'))
-    ctx.require(lit_sp is not None and lit_ep is not None and lit_ed is not None, "missing_points Literal annotations not found")
-    ctx.check('R05.3', set(lit_sp) == set(lit_ep) == {'error', 'drop'}, "select_points and extract_points accept {'error','drop'}", ep, ep.node,
-              construct=f"select_points {sorted(lit_sp)} extract_points {sorted(lit_ep)}")
-    ctx.check('R05.3', set(lit_ed) == {'error', 'drop', 'fill'}, "extract_dataframe accepts {'error','drop','fill'}", ed, ed.node,
-              construct=f"extract_dataframe {sorted(lit_ed)}")
-    cli = ctx.func('emsarray.cli.commands.extract_points.Command.add_arguments')
-    choices = None
-    for c in calls_in(cli):
-        if c.args and const_value(c.args[0], None) == '--missing-points':
-            choices = literal_strings(kwarg(c, 'choices')) if kwarg(c, 'choices') is not None else None
-            default = const_value(kwarg(c, 'default'), None) if kwarg(c, 'default') is not None else None
-    ctx.check('R05.3', choices is not None and set(choices) == set(lit_ed) and default == 'error',
-              "--missing-points offers exactly the library's policies and defaults to 'error'", cli, cli.node,
-              construct=f"--missing-points choices {choices}")
-    # select_points forwards to extract_points
-    flow = ctx.flow(sp)
-    fw = [c for c in calls_in(sp) if callee(ctx, sp, c) == f"{PX}.extract_points"]
-    ok_fw = (len(fw) == 1 and len(fw[0].args) >= 2 and flow.canon(fw[0].args[0]) == ('attr', ('param', 'self'), 'dataset')
-             and flow.canon(fw[0].args[1]) == ('param', sp.params[1])
-             and kwarg(fw[0], 'missing_points') is not None and flow.canon(kwarg(fw[0], 'missing_points')) == ('param', 'missing_points'))
-    ctx.check('R05.3', ok_fw, "select_points forwards dataset, points and policy unchanged", sp, fw[0] if fw else sp.node)
-    # extract_dataframe
-    flow = ctx.flow(ed)
-    fw = [c for c in calls_in(ed) if callee(ctx, ed, c) == f"{PX}.extract_points"]
-    ctx.need('R05.3', len(fw) == 1, f"expected one extract_points call", ed)
-    mp = kwarg(fw[0], 'missing_points')
-    ok_mp = (isinstance(mp, ast.IfExp) and const_value(mp.body, None) == 'error' and const_value(mp.orelse, None) == 'drop'
-             and isinstance(mp.test, ast.Compare) and isinstance(mp.test.ops[0], ast.Eq)
-             and flow.canon(mp.test.left) == ('param', 'missing_points') and const_value(mp.test.comparators[0], None) == 'error')
-    ok_mp = ok_mp or (mp is not None and flow.canon(mp) == ('param', 'missing_points') and False)
-    ctx.check('R05.3', ok_mp, "'error' is forwarded as 'error'; 'drop' and 'fill' both drop the misses first", ed, fw[0],
-              construct=f"missing_points={norm_text(mp) if mp is not None else 'default'}")
-    merges = [c for c in method_calls(ed, 'merge')]
-    ctx.need('R05.3', len(merges) == 1, f"expected one merge call", ed)
-    jn = kwarg(merges[0], 'join')
-    jr = flow.resolve(jn) if jn is not None else None
-    ok_join = (isinstance(jr, ast.IfExp) and const_value(jr.body, None) == 'outer' and const_value(jr.orelse, None) == 'inner'
-               and isinstance(jr.test, ast.Compare) and isinstance(jr.test.ops[0], ast.Eq)
-               and flow.canon(jr.test.left) == ('param', 'missing_points') and const_value(jr.test.comparators[0], None) == 'fill')
-    ctx.check('R05.3', ok_join, "the merge with the input table is outer exactly for 'fill', inner otherwise", ed, merges[0],
-              construct=f"join={norm_text(jr) if jr is not None else 'default'}")
-    fv = kwarg(merges[0], 'fill_value')
-    ctx.check('R05.3', fv is not None and flow.canon(fv) == ('param', 'fill_value'), "missing rows are filled with the caller's fill value", ed, merges[0],
-              construct=f"fill_value={norm_text(fv) if fv is not None else 'default'}")
-    ctx.check('R05.3', flow.resolve(merges[0].func.value) is fw[0], "the extracted points are merged with the table (not the reverse)", ed, merges[0],
-              construct='point_dataset.merge(coord_dataset, ...)')
-    # x is the first coordinate column, y the second
-    ptc = [c for c in calls_in(ed) if callee(ctx, ed, c) == 'shapely.points']
-    ok_xy = False
-    if len(ptc) == 1 and ptc[0].args:
-        a = flow.resolve(ptc[0].args[0])
-        if isinstance(a, ast.Subscript) and (dotted(a.value) or '').endswith('.c_') and isinstance(a.slice, ast.Tuple) and len(a.slice.elts) == 2:
-            cols = []
-            for e in a.slice.elts:
-                if isinstance(e, ast.Subscript) and flow.canon(e.value) == ('param', ed.params[1]):
-                    cols.append(flow.canon(e.slice))
-            cc = ('param', 'coordinate_columns')
-            ok_xy = cols == [('unpack', cc, (0,)), ('unpack', cc, (1,))]
-    ctx.check('R05.3', ok_xy and flow.canon(fw[0].args[1]) == flow.canon(ptc[0]) if ptc else False,
-              "points are (first coordinate column, second coordinate column) of the table, row by row", ed, ptc[0] if ptc else ed.node)
-    pdk = kwarg(fw[0], 'point_dimension')
-    ctx.check('R05.3', pdk is not None and flow.canon(pdk) == ('param', 'point_dimension') and flow.canon(fw[0].args[0]) == ('param', ed.params[0]),
-              "dataset and point dimension are passed on unchanged", ed, fw[0], construct='extract_points(dataset, points, point_dimension=point_dimension, ...)')
+    with ctx.section('policy tables (R05.3)'):
+        sp = ctx.func(f"{BASE}.select_points")
+        ed = ctx.func(f"{PX}.extract_dataframe")
+        lit_sp = literal_annotation_values(param_annotation(sp, 'missing_points'))
+        lit_ep = literal_annotation_values(param_annotation(ep, 'missing_points'))
+        lit_ed = literal_annotation_values(param_annotation(ed, 'missing_points'))
+        ctx.require(lit_sp is not None and lit_ep is not None and lit_ed is not None, "missing_points Literal annotations not found")
+        ctx.check('R05.3', set(lit_sp) == set(lit_ep) == {'error', 'drop'}, "select_points and extract_points accept {'error','drop'}", ep, ep.node,
+                  construct=f"select_points {sorted(lit_sp)} extract_points {sorted(lit_ep)}")
+        ctx.check('R05.3', set(lit_ed) == {'error', 'drop', 'fill'}, "extract_dataframe accepts {'error','drop','fill'}", ed, ed.node,
+                  construct=f"extract_dataframe {sorted(lit_ed)}")
+        cli = ctx.func('emsarray.cli.commands.extract_points.Command.add_arguments')
+        choices = None
+        for c in calls_in(cli):
+            if c.args and const_value(c.args[0], None) == '--missing-points':
+                choices = literal_strings(kwarg(c, 'choices')) if kwarg(c, 'choices') is not None else None
+                default = const_value(kwarg(c, 'default'), None) if kwarg(c, 'default') is not None else None
+        ctx.check('R05.3', choices is not None and set(choices) == set(lit_ed) and default == 'error',
+                  "--missing-points offers exactly the library's policies and defaults to 'error'", cli, cli.node,
+                  construct=f"--missing-points choices {choices}")
+        # select_points forwards to extract_points
+        flow = ctx.flow(sp)
+        fw = [c for c in calls_in(sp) if callee(ctx, sp, c) == f"{PX}.extract_points"]
+        ok_fw = (len(fw) == 1 and len(fw[0].args) >= 2 and flow.canon(fw[0].args[0]) == ('attr', ('param', 'self'), 'dataset')
+                 and flow.canon(fw[0].args[1]) == ('param', sp.params[1])
+                 and kwarg(fw[0], 'missing_points') is not None and flow.canon(kwarg(fw[0], 'missing_points')) == ('param', 'missing_points'))
+        ctx.check('R05.3', ok_fw, "select_points forwards dataset, points and policy unchanged", sp, fw[0] if fw else sp.node)
+        # extract_dataframe
+        flow = ctx.flow(ed)
+        fw = [c for c in calls_in(ed) if callee(ctx, ed, c) == f"{PX}.extract_points"]
+        ctx.need('R05.3', len(fw) == 1, f"expected one extract_points call", ed)
+        mp = kwarg(fw[0], 'missing_points')
+        ok_mp = (isinstance(mp, ast.IfExp) and const_value(mp.body, None) == 'error' and const_value(mp.orelse, None) == 'drop'
+                 and isinstance(mp.test, ast.Compare) and isinstance(mp.test.ops[0], ast.Eq)
+                 and flow.canon(mp.test.left) == ('param', 'missing_points') and const_value(mp.test.comparators[0], None) == 'error')
+        ok_mp = ok_mp or (mp is not None and flow.canon(mp) == ('param', 'missing_points') and False)
+        ctx.check('R05.3', ok_mp, "'error' is forwarded as 'error'; 'drop' and 'fill' both drop the misses first", ed, fw[0],
+                  construct=f"missing_points={norm_text(mp) if mp is not None else 'default'}")
+        merges = [c for c in method_calls(ed, 'merge')]
+        ctx.need('R05.3', len(merges) == 1, f"expected one merge call", ed)
+        jn = kwarg(merges[0], 'join')
+        jr = flow.resolve(jn) if jn is not None else None
+        ok_join = (isinstance(jr, ast.IfExp) and const_value(jr.body, None) == 'outer' and const_value(jr.orelse, None) == 'inner'
+                   and isinstance(jr.test, ast.Compare) and isinstance(jr.test.ops[0], ast.Eq)
+                   and flow.canon(jr.test.left) == ('param', 'missing_points') and const_value(jr.test.comparators[0], None) == 'fill')
+        ctx.check('R05.3', ok_join, "the merge with the input table is outer exactly for 'fill', inner otherwise", ed, merges[0],
+                  construct=f"join={norm_text(jr) if jr is not None else 'default'}")
+        fv = kwarg(merges[0], 'fill_value')
+        ctx.check('R05.3', fv is not None and flow.canon(fv) == ('param', 'fill_value'), "missing rows are filled with the caller's fill value", ed, merges[0],
+                  construct=f"fill_value={norm_text(fv) if fv is not None else 'default'}")
+        ctx.check('R05.3', flow.resolve(merges[0].func.value) is fw[0], "the extracted points are merged with the table (not the reverse)", ed, merges[0],
+                  construct='point_dataset.merge(coord_dataset, ...)')
+        # x is the first coordinate column, y the second
+        ptc = [c for c in calls_in(ed) if callee(ctx, ed, c) == 'shapely.points']
+        ok_xy = False
+        if len(ptc) == 1 and ptc[0].args:
+            a = flow.resolve(ptc[0].args[0])
+            if isinstance(a, ast.Subscript) and (dotted(a.value) or '').endswith('.c_') and isinstance(a.slice, ast.Tuple) and len(a.slice.elts) == 2:
+                cols = []
+                for e in a.slice.elts:
+                    if isinstance(e, ast.Subscript) and flow.canon(e.value) == ('param', ed.params[1]):
+                        cols.append(flow.canon(e.slice))
+                cc = ('param', 'coordinate_columns')
+                ok_xy = cols == [('unpack', cc, (0,)), ('unpack', cc, (1,))]
+        ctx.check('R05.3', ok_xy and flow.canon(fw[0].args[1]) == flow.canon(ptc[0]) if ptc else False,
+                  "points are (first coordinate column, second coordinate column) of the table, row by row", ed, ptc[0] if ptc else ed.node)
+        pdk = kwarg(fw[0], 'point_dimension')
+        ctx.check('R05.3', pdk is not None and flow.canon(pdk) == ('param', 'point_dimension') and flow.canon(fw[0].args[0]) == ('param', ed.params[0]),
+                  "dataset and point dimension are passed on unchanged", ed, fw[0], construct='extract_points(dataset, points, point_dimension=point_dimension, ...)')
+
 
 
 # --------------------------------------------------------------------------- checker self-test
